@@ -7,8 +7,8 @@ for d in sorted(glob.glob('/verif/seeded/C*')):
     det=json.load(open(d+'/detection.json')) if os.path.exists(d+'/detection.json') else None
     rows.append((m['label'],m['property'],(m.get('summary') or '')[:170].replace('|','/').replace('\n',' '),(m.get('needs_to_manifest') or '')[:170].replace('|','/').replace('\n',' '),det))
 out=["# Seeded changes","",
-"Each directory holds `patch.diff` (applies to the current HEAD of /repo with `git apply`), `demo_test.go` (fails with the change, passes without), `meta.json` (what it breaks, what it needs in order to manifest, how it was confirmed) and `detection.json` (the outcome of the quick check of the property it breaks with the change applied: waves 1-3 through `tools/seed_pass.sh` — applied to /repo itself, undone straight afterwards — waves 4 and 5 through `bin/mutant-run` — applied in a scratch worktree of /repo's HEAD; the `check` field says which).",
-"Labels `CxxA`/`CxxB` are wave 1 (written against the original tree, re-based where a later `fix:` commit touched the same lines), `CxxA2`/`CxxB2` are wave 2 (written against the repaired tree, with the wave-1 ideas excluded), `CxxA3`/`CxxB3`, `CxxA4`/`CxxB4` and `CxxA5`/`CxxB5` are waves 3, 4 and 5 (same, with all earlier ideas for the property excluded and a stated preference for histories, faults, restarts and rolled-back or simulated transactions). None of them is ever committed to /repo. Each `detection.json` records the outcome of the pass made when its wave was evaluated (the simulator was extended after every wave; `tools/seed_pass.sh <label>` re-evaluates a change against the current one).","",
+"Each directory holds `patch.diff` (applies to the current HEAD of /repo with `git apply`), `demo_test.go` (fails with the change, passes without), `meta.json` (what it breaks, what it needs in order to manifest, how it was confirmed) and `detection.json` (the outcome of the quick check of the property it breaks with the change applied: waves 1-3 through `tools/seed_pass.sh` — applied to /repo itself, undone straight afterwards — waves 4 to 7 through `bin/mutant-run` — applied in a scratch worktree of /repo's HEAD; the `check` field says which).",
+"Labels `CxxA`/`CxxB` are wave 1 (written against the original tree, re-based where a later `fix:` commit touched the same lines), `CxxA2`/`CxxB2` are wave 2 (written against the repaired tree, with the wave-1 ideas excluded), `CxxA3`/`CxxB3`, `CxxA4`/`CxxB4`, `CxxA5`/`CxxB5`, `CxxA6` and `CxxA7` are waves 3 to 7 (same, with all earlier ideas for the property excluded and a stated preference for histories, faults, restarts and rolled-back or simulated transactions; wave 7 also names failures of the module's own state store and error classes). None of them is ever committed to /repo. Each `detection.json` records the outcome of the pass made when its wave was evaluated (the simulator was extended after every wave; `tools/seed_pass.sh <label>` re-evaluates a change against the current one).","",
 "Dropped: wave-1 `C01B` (needs a fee paid to the orbiter account, refused at validation since the fix), `C19A`, `C19B` (made error *text* nondeterministic; since the C19 fix the text is no longer committed), `C20B` (non-canonical negative identifiers, refused since the C20 fix).","",
 "| label | property | change | needs | caught by its property's quick check | violations | seconds (incl. build) |","|---|---|---|---|---|---|---|"]
 n=c=0
